@@ -7,6 +7,11 @@ PROP = dict(
              timeout=dict(quick=600, thorough=1200)),
         dict(module="MCAPIValidate", cfg=dict(quick="MCAPIValidate_ops2_quick.cfg", thorough="MCAPIValidate_ops2_thorough.cfg"),
              timeout=dict(quick=900, thorough=3000)),
+        # one API value over time: histories of registration changes and Validate calls
+        dict(module="MCAPIValidateHist", cfg=dict(quick="MCAPIValidateHist_quick.cfg", thorough="MCAPIValidateHist_thorough.cfg"),
+             timeout=dict(quick=300, thorough=600)),
+        dict(module="MCAPIValidateHist", cfg="MCAPIValidateHist_mutant_memoised.cfg", expect_violation="ValidateIsCurrent", timeout=300),
+        dict(module="MCAPIValidate", cfg="MCAPIValidate_mutant_schemebuf.cfg", expect_violation="ServingConsequence", timeout=300),
         dict(module="MCAPIValidate", cfg="MCAPIValidate_mutant_onedir.cfg", expect_violation="ValidateExact", timeout=300),
         dict(module="MCAPIValidate", cfg="MCAPIValidate_mutant_oplists.cfg", expect_violation="ServingConsequence", timeout=300),
     ],
@@ -19,14 +24,17 @@ PROP = dict(
                "small pools x every registration that is exact, minus one, plus one or a case variant, and validates every "
                "Validate() result and every request served by the real middleware.Serve on validated APIs against it.",
     level_note="bounded exhaustive at model level; the real code is bound by trace validation of the executed Validate calls and "
-               "served requests only; consumers/producers/authenticators are stubs that always succeed",
+               "served requests only; consumers/producers are stubs that always succeed, each authenticator accepts exactly the "
+               "credentials of its own scheme (header X-Cred-<scheme>)",
     design_ref="DESIGN.md 4.19",
     driver="c19",
     trace=dict(module="TraceAPIValidate", cfg="TraceAPIValidate.cfg"),
     rule="case = one API description + a list of registration sets (exact, each single omission, each single addition, case "
          "variants of media types and methods, with and without JSON defaults, random multi-category perturbations); for each "
          "registration Validate() is recorded and, when it passes, every operation is served with every declared Content-Type x "
-         "Accept. Non-trivial: the case has a passing and a failing registration; distinct by hash of the case.",
+         "Accept x (for secured operations) one request per security alternative carrying valid credentials for exactly that "
+         "alternative; history cases: one API value on which registration changes (Register*, WithJSONDefaults, WithoutJSONDefaults) "
+         "are interleaved with Validate calls, each judged against the registrations at that moment. Non-trivial: the case has a passing and a failing registration; distinct by hash of the case.",
     assumptions=COMMON_ASSUME + [
         "the first failing category is taken in the code's order: consumes, produces, operation, auth scheme, security definitions",
         "a requirement naming a scheme without definition (invalid description) is reported under 'security definitions' (named deviation UndefinedSchemeReported)",
